@@ -143,14 +143,20 @@ class TypeRender:
         if not metas:
             return ''
         if len(metas) > 1 and self.sp('split', site) == 'separate':
-            return ' '.join('#[educe(%s%s)]' % (m, self.trail(site, k)) for k, m in enumerate(metas)) + ' '
-        return '#[educe(%s%s)] ' % (', '.join(metas), self.trail(site, 0))
+            return ' '.join(self.delim(site, k) % ('%s%s' % (m, self.trail(site, k))) for k, m in enumerate(metas)) + ' '
+        return self.delim(site, 0) % ('%s%s' % (', '.join(metas), self.trail(site, 0))) + ' '
 
     def meta(self, T, params, site):
         params = [p for p in params if p]
         if not params:
             return T
         return '%s(%s%s)' % (T, ', '.join(self.order(params, site + '/order')), self.trail(site, 'p'))
+
+    def delim(self, site, k):
+        """the delimiter of the attribute's list: `#[educe(..)]`, and now and then `#[educe[..]]` or `#[educe{..}]`"""
+        if self.canonical:
+            return '#[educe(%s)]'
+        return (['#[educe(%s)]'] * 6 + ['#[educe[%s]]', '#[educe{%s}]'])[hpick(8, self.idx, 'delim', site, k)]
 
     def trail(self, site, k):
         """a trailing comma after the last element of a list (attribute list or parameter list), in a third of the
@@ -160,6 +166,12 @@ class TypeRender:
         return ',' if hpick(3, self.idx, 'trail', site, k) == 0 else ''
 
     def fname(self, v, i):
+        # from the second variant on, a third of the configurations rotate the field names (`V1 { f1, f2 }`,
+        # `V2 { f2, f1 }`): the same name then sits at different positions in different variants
+        if v >= 2 and not self.canonical and hpick(3, self.idx, 'permnames') == 0:
+            n = len(self.cfg['variants'][v - 1]['fields'])
+            if n >= 2:
+                i = i % n + 1
         if self.pool is None or i > len(self.pool):
             return 'f%d' % i
         return self.pool[i - 1]
@@ -390,6 +402,15 @@ class TypeRender:
             metas.append('Deref')
         if 'DerefMut' in self.traits and f.get('dmut'):
             metas.append('DerefMut')
+        # "do not ignore", said explicitly: a fifth of the fields that a trait treats the default way say so
+        # (`Hash(ignore = false)`, `Hash(ignore(false))`) -- never part of the request
+        if not self.canonical and self.cfg['kind'] != 'union' and getattr(self, 'explicit_own', True):
+            for t, key in (('Hash', 'hash'), ('Debug', 'dbg'), ('PartialEq', 'eq')):
+                if t in self.traits and f.get(key, 'own') == 'own' and not (t == 'Debug' and f.get('key')) \
+                        and not any(m.startswith(t + '(') or m.startswith(t + ' ') or m == t for m in metas if m) \
+                        and not (t == 'PartialEq' and any(m and m.startswith('Eq') for m in metas)) \
+                        and hpick(5, self.idx, 'explicit-own', v, i, t) == 0:
+                    metas.append('%s(%s)' % (t, ['ignore = false', 'ignore(false)'][hpick(2, self.idx, 'explicit-own-form', v, i, t)]))
         return metas
 
     def field_attr(self, v, i, f):
